@@ -410,5 +410,13 @@ func histConfig(g *pkgGen, i int) *genOut {
 			c.Overrides[f] = ov
 		}
 	}
+	// the script an override block names exists whether or not the base configuration uses it
+	has := false
+	for _, f := range gen.files {
+		has = has || f.Path == "scripts/postinstall"
+	}
+	if !has {
+		gen.files = append(gen.files, extraFile{Path: "scripts/postinstall", Hex: hex.EncodeToString([]byte("#!/bin/sh\necho postinstall from an override block\n")), Mode: 0o755, MTime: 1650000001})
+	}
 	return gen
 }
